@@ -95,6 +95,7 @@ def check(run, project):
     r4(run, roles)
     r5(run, project)
     r6(run, project)
+    r7(run, project)
     run.floor("R1", 20, "region obligations")
     run.floor("R4", 20, "threaded call sites")
 
@@ -461,3 +462,68 @@ def r6(run, project):
                            "is consumed instead of raising SizeConstraintExceededError", module=cm, node=node,
                            func=f"SizeConstraint.{m.name}", construct=f"truthiness of {norm(o)}")
     run.ob("R6", True, f"SizeConstraint: {n} boolean-context operands examined")
+
+
+def r7(run, project):
+    """error details and skip amounts as *linear forms* over (bytes counted so far, size of the offending field, limit):
+    exceeded_by = already + size - max at both overrun sites, violator_value = size, the overrun skip and the padding
+    skip = max - already.  Decided by normalising the expressions (through locals and properties) to coefficient maps -
+    no value is computed."""
+    from ..fnview import linear_form
+    cm = project.module(CONSTRAINTS)
+    bp = cm.functions().get("SizeConstraint.bytes_parsed")
+    ad = cm.functions().get("SizeConstraint.assert_done")
+    if bp is None or ad is None:
+        raise AnalysisError("C03: constraint methods not found")
+    size = bp.args.args[2].arg
+    atoms = {"self.size_already", "self.size_max", size}
+    want_exc = {"self.size_already": 1, size: 1, "self.size_max": -1}
+    want_rest = {"self.size_max": 1, "self.size_already": -1}
+    n = 0
+    for c in [c for c in walk_no_nested(bp) if isinstance(c, ast.Call) and call_name(c) in
+              ("SizeConstraintExceededError", "AnticipatedSizeConstraintExceededError")]:
+        eb = kwarg(c, "exceeded_by")
+        f = linear_form(cm, bp, eb, atoms) if eb is not None else None
+        n += 1
+        run.ob("R7", f == want_exc, f"{call_name(c)}: exceeded_by = counted + size - limit",
+               f"exceeded_by is `{norm(eb) if eb is not None else None}` (as a linear form: {f}); the error must report by how much "
+               "`counted so far + this field` passes the limit", module=cm, node=c, func="SizeConstraint.bytes_parsed",
+               construct=f"{call_name(c)}(exceeded_by)")
+        vv = kwarg(c, "violator_value")
+        if call_name(c).startswith("Anticipated"):
+            run.ob("R7", vv is not None and linear_form(cm, bp, vv, atoms) == {size: 1}, "anticipated error carries the announced size",
+                   f"violator_value is `{norm(vv) if vv is not None else None}`", module=cm, node=c, func="SizeConstraint.bytes_parsed",
+                   construct="Anticipated(violator_value)")
+    for fn, q in ((bp, "SizeConstraint.bytes_parsed"), (ad, "SizeConstraint.assert_done")):
+        for c in [c for c in walk_no_nested(fn) if isinstance(c, ast.Call) and call_name(c) == "consume_bytes"]:
+            f = linear_form(cm, fn, c.args[0], atoms) if c.args else None
+            n += 1
+            run.ob("R7", f == want_rest, f"{q}: skips limit - counted bytes", f"skip amount is `{norm(c.args[0]) if c.args else None}` "
+                   f"(linear form {f}): decoding must resume exactly at the end the size field declares", module=cm, node=c, func=q,
+                   construct=f"{q} skip amount")
+    # the two decisive comparisons, as linear forms of (left - right)
+    def diff_form(cmp_, fn):
+        a = linear_form(cm, fn, cmp_.left, atoms)
+        b = linear_form(cm, fn, cmp_.comparators[0], atoms)
+        if a is None or b is None:
+            return None
+        out = dict(a)
+        for k, v in b.items():
+            out[k] = out.get(k, 0) - v
+        return {k: v for k, v in out.items() if v}
+    over = []
+    for t in [x for x in walk_no_nested(bp) if isinstance(x, ast.Compare) and len(x.ops) == 1 and isinstance(x.ops[0], (ast.Gt, ast.Lt, ast.GtE, ast.LtE))]:
+        f = diff_form(t, bp)
+        if f is not None and set(f) >= {"self.size_max"}:
+            over.append((t, f))
+    ok = len(over) == 1 and ((isinstance(over[0][0].ops[0], ast.Gt) and over[0][1] == want_exc) or
+                             (isinstance(over[0][0].ops[0], ast.Lt) and over[0][1] == {k: -v for k, v in want_exc.items()}))
+    run.ob("R7", ok, "overrun test: counted + size > limit (look-ahead, strict inequality)",
+           f"the overrun comparison is `{norm(over[0][0]) if over else None}`: a field is an overrun iff the bytes counted so far plus "
+           "its own size pass the limit", module=cm, node=over[0][0] if over else bp, func="SizeConstraint.bytes_parsed",
+           construct="overrun comparison")
+    eqs = [x for x in walk_no_nested(ad) if isinstance(x, ast.Compare) and len(x.ops) == 1 and isinstance(x.ops[0], (ast.Eq, ast.NotEq))
+           and diff_form(x, ad) in ({"self.size_already": 1, "self.size_max": -1}, {"self.size_already": -1, "self.size_max": 1})]
+    run.ob("R7", len(eqs) == 1, "region end test: counted == limit", "assert_done no longer compares the bytes counted with the limit for equality",
+           module=cm, node=ad, func="SizeConstraint.assert_done", construct="region end comparison")
+    run.require(n >= 4, "C03-R7: error construction / skip sites not found")
